@@ -321,7 +321,14 @@ fn run_batch_of(ctx: &Arc<Ctx>, batch: Batch, gen: Gen, seed: u64, runs: u64, th
                     let mut good: Vec<String> = vec![];
                     let mut i = t;
                     while i < runs {
+                        sim::set_label(Some(sim::RunLabel {
+                            gen,
+                            batch: if batch == Batch::Cover { "cover" } else { "random" },
+                            seed,
+                            run: i,
+                        }));
                         let r = sim::execute(gen, &ctx.image, make_mode(batch, seed, gen, i), true, false);
+                        sim::set_label(None);
                         let v = sim::judge(&r, &ctx.comp, &mut good);
                         if batch == Batch::Cover {
                             // measure what the family is for: ordered adjacencies actually produced
@@ -589,16 +596,25 @@ fn write_replay(
     path
 }
 
-fn load_static(ctx_image: &Arc<FsImage>) -> (BTreeMap<String, Val>, oracle::Reference) {
+fn load_static(ctx_image: &Arc<FsImage>) -> Result<(BTreeMap<String, Val>, oracle::Reference), String> {
     let comp = oracle::compiled();
     if oracle::init_packer(ctx_image).fallback {
         println!("NOTE: the library's integer form of subtags is no longer little-endian ASCII; the reference model packs with the library's own conversions");
     }
-    let rf = match oracle::reference(ctx_image) {
-        Ok(r) => r,
-        Err(e) => harness_error(&format!("reference model cannot read the CLDR data: {}", e)),
-    };
-    (comp, rf)
+    let rf = oracle::reference(ctx_image)?;
+    Ok((comp, rf))
+}
+
+/// The bundled CLDR data cannot be read as CLDR data (invalid JSON, a key that is no language
+/// identifier, a locale directory without layout file, ...): then nothing determines the tables,
+/// which is a violation of C18 in its own right, reported without running any simulation.
+fn data_unreadable_violation(e: &str) -> Violation {
+    Violation {
+        class: "S1".into(),
+        table: "-".into(),
+        signature: "S1:-:cldr-data-unreadable".into(),
+        detail: format!("the bundled CLDR source data do not determine the tables: {}", e),
+    }
 }
 
 fn cmd_check(a: &Args) -> i32 {
@@ -642,12 +658,46 @@ fn cmd_check(a: &Args) -> i32 {
     ));
 
     println!("gensim C18 tier={} VERIF_SEED={} threads={} layout_runs={} likely_runs={}", tier, seed, threads, layout_runs, likely_runs);
+    spawn_watchdog(run_time_limit(a), evidence_path.clone(), replay_dir.clone(), tier.clone(), seed, t0);
 
     let image = match FsImage::load(Path::new(REPO_CRATE)) {
         Ok(i) => Arc::new(i),
         Err(e) => harness_error(&format!("cannot load the data image: {}", e)),
     };
-    let (comp, rf) = load_static(&image);
+    let (comp, rf) = match load_static(&image) {
+        Ok(x) => x,
+        Err(e) => {
+            let v = data_unreadable_violation(&e);
+            let _ = std::fs::create_dir_all(&replay_dir);
+            let path = replay_dir.join(format!("{}-static-data-unreadable.json", PROPERTY));
+            let j = json!({
+                "property": PROPERTY,
+                "kind": "static",
+                "violation": { "class": v.class, "signature": v.signature, "detail": v.detail },
+                "data_digest": format!("{:016x}", image.digest),
+            });
+            let _ = std::fs::write(&path, serde_json::to_string_pretty(&j).unwrap());
+            let ev = json!({
+                "property_id": PROPERTY,
+                "tier": tier,
+                "seed": seed,
+                "level": "exploration",
+                "wall_s": t0.elapsed().as_secs_f64(),
+                "violations": 1,
+                "coverage": {
+                    "evaluations": 1,
+                    "distinct_nontrivial": 0,
+                    "rule": "check ended before any simulation: the reference model could not read the bundled CLDR data",
+                    "samples": [j.clone()],
+                    "exhaustive": false,
+                },
+            });
+            let _ = std::fs::write(&evidence_path, serde_json::to_string_pretty(&ev).unwrap());
+            println!("violation: {} — {}", v.signature, v.detail);
+            println!("VIOLATION property={} replay={}", PROPERTY, path.display());
+            return 1;
+        }
+    };
     let t1_skipped = match oracle::source_text_agrees(Path::new(REPO_CRATE), &comp) {
         Ok(s) => s,
         Err(e) => harness_error(&format!("T1: {}", e)),
@@ -1141,6 +1191,81 @@ fn evidence_samples(ctx: &Ctx, seed: u64) -> Vec<serde_json::Value> {
     out
 }
 
+fn run_time_limit(a: &Args) -> std::time::Duration {
+    // a run takes milliseconds; two minutes of wall clock without finishing is a program that
+    // does not terminate under that schedule
+    std::time::Duration::from_secs(opt_u64(
+        a,
+        "run-timeout-s",
+        std::env::var("GENSIM_RUN_TIMEOUT_S").ok().and_then(|s| s.parse().ok()).unwrap_or(120),
+    ))
+}
+
+fn hang_violation(l: &sim::RunLabel, secs: u64) -> Violation {
+    Violation {
+        class: "R1".into(),
+        table: "-".into(),
+        signature: format!("R1:{}:no-termination", l.gen.name()),
+        detail: format!(
+            "generator {} did not finish within {} s of wall clock under a legal schedule ({} batch, seed {}, run {}); a run normally takes milliseconds",
+            l.gen.program(),
+            secs,
+            l.batch,
+            l.seed,
+            l.run
+        ),
+    }
+}
+
+/// A simulated run that never returns (a loop that some schedule does not let end) cannot be
+/// interrupted from inside; a monitor thread reports it as what it is — the generator does not
+/// terminate under that schedule — with a replay file naming the seeded run, and ends the check.
+fn spawn_watchdog(limit: std::time::Duration, evidence: PathBuf, replay_dir: PathBuf, tier: String, seed: u64, t0: Instant) {
+    std::thread::spawn(move || loop {
+        std::thread::sleep(std::time::Duration::from_millis(500));
+        let Some((l, d)) = sim::overdue(limit) else { continue };
+        let v = hang_violation(&l, d.as_secs());
+        let _ = std::fs::create_dir_all(&replay_dir);
+        let path = replay_dir.join(format!("{}-hang-{}-seed{}-run{}.json", PROPERTY, l.gen.name(), l.seed, l.run));
+        let j = json!({
+            "property": PROPERTY,
+            "kind": "hang",
+            "generator": l.gen.name(),
+            "batch": l.batch,
+            "seed": l.seed,
+            "run": l.run,
+            "limit_s": limit.as_secs(),
+            "violation": { "class": v.class, "signature": v.signature, "detail": v.detail },
+            "note": "the run never finished, so its schedule could not be recorded or minimised; replay re-executes the same seeded run under the same time limit",
+        });
+        let _ = std::fs::write(&path, serde_json::to_string_pretty(&j).unwrap());
+        let done = sim::RUNS_DONE.load(std::sync::atomic::Ordering::Relaxed);
+        let ev = json!({
+            "property_id": PROPERTY,
+            "tier": tier,
+            "seed": seed,
+            "level": "exploration",
+            "wall_s": t0.elapsed().as_secs_f64(),
+            "violations": 1,
+            "coverage": {
+                "evaluations": done + 1,
+                "distinct_nontrivial": done,
+                "rule": "check ended early by the watchdog: one simulated run did not terminate; evaluations = runs completed before that plus the hanging one (distinct_nontrivial: completed runs, each under its own seeded schedule; not de-duplicated because the batch was cut short)",
+                "samples": [j.clone()],
+                "exhaustive": false,
+            },
+            "assumptions": ["a simulated run that exceeds the wall-clock limit by four orders of magnitude does not terminate"],
+        });
+        if let Some(d) = evidence.parent() {
+            let _ = std::fs::create_dir_all(d);
+        }
+        let _ = std::fs::write(&evidence, serde_json::to_string_pretty(&ev).unwrap());
+        println!("violation: {} — {}", v.signature, v.detail);
+        println!("VIOLATION property={} replay={}", PROPERTY, path.display());
+        std::process::exit(1);
+    });
+}
+
 fn cmd_replay(a: &Args) -> i32 {
     let file = a
         .pos
@@ -1154,7 +1279,14 @@ fn cmd_replay(a: &Args) -> i32 {
         Ok(i) => Arc::new(i),
         Err(e) => harness_error(&format!("cannot load the data image: {}", e)),
     };
-    let (comp, rf) = load_static(&image);
+    let (comp, rf) = match load_static(&image) {
+        Ok(x) => x,
+        Err(e) => {
+            let v = data_unreadable_violation(&e);
+            println!("REPRODUCED {}: {}", v.signature, v.detail);
+            return 1;
+        }
+    };
     let want_sig = j["violation"]["signature"].as_str().unwrap_or("").to_string();
     let want_class = {
         let v = Violation {
@@ -1184,6 +1316,33 @@ fn cmd_replay(a: &Args) -> i32 {
                 }
             }
             found
+        }
+        Some("hang") => {
+            let gen = Gen::parse(j["generator"].as_str().unwrap_or("")).unwrap_or_else(|| harness_error("replay file: bad generator"));
+            let (seed, run) = (j["seed"].as_u64().unwrap_or(1), j["run"].as_u64().unwrap_or(0));
+            let batch = if j["batch"].as_str() == Some("cover") { Batch::Cover } else { Batch::Random };
+            let limit = std::time::Duration::from_secs(j["limit_s"].as_u64().unwrap_or(120)).min(run_time_limit(a));
+            let (tx, rx) = std::sync::mpsc::channel();
+            let img = image.clone();
+            std::thread::Builder::new()
+                .stack_size(64 << 20)
+                .spawn(move || {
+                    let r = sim::execute(gen, &img, make_mode(batch, seed, gen, run), false, false);
+                    let _ = tx.send(r.panic.clone());
+                })
+                .unwrap();
+            match rx.recv_timeout(limit) {
+                Ok(_) => vec![],
+                Err(_) => vec![hang_violation(
+                    &sim::RunLabel {
+                        gen,
+                        batch: if batch == Batch::Cover { "cover" } else { "random" },
+                        seed,
+                        run,
+                    },
+                    limit.as_secs(),
+                )],
+            }
         }
         Some("run") => {
             let gen = Gen::parse(j["generator"].as_str().unwrap_or("")).unwrap_or_else(|| harness_error("replay file: bad generator"));
@@ -1275,7 +1434,7 @@ fn cmd_show(a: &Args) -> i32 {
         Ok(i) => Arc::new(i),
         Err(e) => harness_error(&format!("cannot load the data image: {}", e)),
     };
-    let (comp, _rf) = load_static(&image);
+    let (comp, _rf) = load_static(&image).unwrap_or_else(|e| harness_error(&format!("reference model cannot read the CLDR data: {}", e)));
     let r = sim::execute(gen, &image, sim::random_mode(seed, gen, run), true, true);
     println!("profile: {:?}", r.profile.map(|p| p.name()));
     println!("schedule: {}", serde_json::to_string(&schedule::to_json(&r.trace, &image)).unwrap().chars().take(600).collect::<String>());
